@@ -292,8 +292,13 @@ def write_evidence(mod, tier, seed, merged, wall, inconclusive, n_viol,
         'assumptions': meta.get('assumptions', []),
         'wall_s': round(wall, 2), 'violations': n_viol,
     }
-    os.makedirs(os.path.join(VERIF_DIR, 'evidence'), exist_ok=True)
-    path = os.path.join(VERIF_DIR, 'evidence', meta['id'] + '.json')
+    evdir = os.path.join(VERIF_DIR, 'evidence')
+    if REPO_DIR != '/repo':
+        # a run against a scratch copy (mutant / seeded change) must not
+        # overwrite the evidence of the real tree
+        evdir = os.path.join(VERIF_DIR, 'work', 'scratch-evidence')
+    os.makedirs(evdir, exist_ok=True)
+    path = os.path.join(evdir, meta['id'] + '.json')
     with open(path, 'w', encoding='utf-8') as f:
         json.dump(ev, f, indent=1, sort_keys=True, default=str)
         f.write('\n')
@@ -403,6 +408,20 @@ def main_check(prop_id, tier, seed, cases=None, time_s=None, workers=None):
             merged['extra']['harness_errors'] = \
                 merged['extra'].get('harness_errors', 0) + \
                 r['n_harness_errors']
+    # optional parent-side stage of a check (e.g. the repository's own tests
+    # under runtime contracts in a thorough tier)
+    if hasattr(mod, 'post_run'):
+        try:
+            post = mod.post_run(tier, seed, workdir) or {}
+        except Exception:  # pylint: disable=broad-except
+            post = {'inconclusive': ['post_run failed: ' +
+                                     traceback.format_exc()[-800:]]}
+        for v in post.get('violations', []):
+            merged['violations'].append(v)
+            merged['viol_counts'][v['key']] += 1
+        merged['events'].update(post.get('events', {}))
+        merge_extra(merged['extra'], post.get('extra', {}))
+        inconclusive.extend(post.get('inconclusive', []))
     for k in ('events', 'classes', 'outcomes'):
         merged[k] = dict(sorted(merged[k].items()))
 
@@ -425,7 +444,9 @@ def main_check(prop_id, tier, seed, cases=None, time_s=None, workers=None):
               (prop_id, k['what'], k['key'], n))
     rc = 0
     if unlisted:
-        rdir = os.path.join(VERIF_DIR, 'replay', prop_id)
+        rdir = os.path.join(VERIF_DIR, 'replay', prop_id) \
+            if REPO_DIR == '/repo' else \
+            os.path.join(VERIF_DIR, 'work', 'scratch-replay', prop_id)
         os.makedirs(rdir, exist_ok=True)
         for key, v in sorted(unlisted.items()):
             rec = dict(v)
